@@ -27,6 +27,7 @@ extern "C" void nv_post(const char* tag, int ok);
 extern "C" {
 unsigned long nondet_usize();
 long nondet_ssize();
+long nondet_long();
 unsigned char nondet_byte();
 char nondet_char();
 int nondet_int();
